@@ -1,2 +1,320 @@
--- stub: replaced by the C05 driver
-def main : IO Unit := pure ()
+/-
+  Driver.C05 — runs the reference encoder / decoder of the collector protocol (Golib.Wire) on pack lines.
+
+  request   <type> key=value key=value …          (no spaces inside values)
+     type ∈ tagcount logsink text param event zip hitmap counter
+     common keys: pcode oid okind onode time   lic=<hex of the license text>
+                  go=<hex of the bytes the implementation produced for the payload>   (optional)
+     strings are hex of their UTF-8 bytes ("-" = empty), floats are bit patterns,
+     values use the syntax of `parseValue` below, absent optional sections = absent key.
+  answer    <hex of the reference frame> <decode status>
+     decode status: the reference *decoder* is run on the `go` payload and its result compared
+     with the fields of the request:  ok | nogo | decfail | diff | badtype
+  an unknown key is answered  badkey:<key>
+
+  hash <hex>   →  the 64-bit hash (signed decimal)
+-/
+import Golib.Wire.CounterCodec
+import Driver.Common
+
+open Prim Drv Wire
+
+abbrev KV := List (String × String)
+
+def lookup (kv : KV) (k : String) : Option String := (kv.find? (fun p => p.1 == k)).map (·.2)
+def getI (kv : KV) (k : String) : Int := ((lookup kv k).bind parseInt).getD 0
+def getN (kv : KV) (k : String) : Nat := ((lookup kv k).bind parseNat).getD 0
+def getHex (kv : KV) (k : String) : Bytes := ((lookup kv k).bind ofHex).getD []
+def intsOf (sep : String) (s : String) : List Int :=
+  if s == "-" then [] else (s.splitOn sep).map (fun x => (parseInt x).getD 0)
+def getInts (kv : KV) (k : String) : List Int := ((lookup kv k).map (intsOf ",")).getD []
+
+/-- records separated by `/`, fields by `:`; `-` is the empty list -/
+def recsOf (s : String) : List (List String) :=
+  if s == "-" then [] else (s.splitOn "/").map (fun r => r.splitOn ":")
+def fI (r : List String) (i : Nat) : Int := ((r[i]?).bind parseInt).getD 0
+def fN (r : List String) (i : Nat) : Nat := ((r[i]?).bind parseNat).getD 0
+def fH (r : List String) (i : Nat) : Bytes := ((r[i]?).bind ofHex).getD []
+
+def getHdr (kv : KV) : Hdr :=
+  ⟨getI kv "pcode", getI kv "oid", getI kv "okind", getI kv "onode", getI kv "time"⟩
+
+/-! value syntax:
+     n | b:0 | d:<int> | i:<int> | l:<int> | f:<bits> | g:<bits> | ds:<bits>:<int>:<bits>:<bits>
+     | ls:<int>:<int>:<int>:<int> | t:<hex> | h:<int> | x:<hex> | p:<hex>
+     | ai:<ints,> | af:<nats,> | at:<hexes,> (an empty element is `_`) | al:<ints,>
+     | L(v;v;…) | M(<hexkey>=v;…) | IM(<int>=v;…) -/
+
+def atomOf (s : String) : Option Value :=
+  match s.splitOn ":" with
+  | ["n"] => some .null
+  | ["b", x] => some (.bool (x == "1"))
+  | ["d", x] => (parseInt x).map .dec
+  | ["i", x] => (parseInt x).map .int
+  | ["l", x] => (parseInt x).map .long
+  | ["f", x] => (parseNat x).map .f32
+  | ["g", x] => (parseNat x).map .f64
+  | ["ds", a, b, c, d] => do some (.dsum (← parseNat a) (← parseInt b) (← parseNat c) (← parseNat d))
+  | ["ls", a, b, c, d] => do some (.lsum (← parseInt a) (← parseInt b) (← parseInt c) (← parseInt d))
+  | ["t", x] => (ofHex x).map .text
+  | ["h", x] => (parseInt x).map .hash
+  | ["x", x] => (ofHex x).map .blob
+  | ["p", x] => (ofHex x).map .ip4
+  | ["ai", x] => (parseList parseInt x).map .ai
+  | ["af", x] => (parseList parseNat x).map .af
+  | ["at", x] => (parseList (fun e => if e == "_" then some [] else ofHex e) x).map .at
+  | ["al", x] => (parseList parseInt x).map .al
+  | _ => none
+
+def splitAtom (cs : List Char) : List Char × List Char :=
+  cs.span (fun c => c != ';' && c != ')' && c != '=')
+
+mutual
+partial def parseValue (cs : List Char) : Option (Value × List Char) :=
+  match cs with
+  | 'L' :: '(' :: r => (parseItems r []).map (fun (xs, r) => (.list xs, r))
+  | 'M' :: '(' :: r => (parseEntries r []).map (fun (xs, r) => (.map xs, r))
+  | 'I' :: 'M' :: '(' :: r => (parseIEntries r []).map (fun (xs, r) => (.imap xs, r))
+  | _ =>
+    let (a, r) := splitAtom cs
+    (atomOf (String.ofList a)).map (fun v => (v, r))
+partial def parseItems (cs : List Char) (acc : List Value) : Option (List Value × List Char) :=
+  match cs with
+  | ')' :: r => some (acc.reverse, r)
+  | _ =>
+    match parseValue cs with
+    | none => none
+    | some (v, ';' :: r) => parseItems r (v :: acc)
+    | some (v, ')' :: r) => some ((v :: acc).reverse, r)
+    | _ => none
+partial def parseEntries (cs : List Char) (acc : List (Bytes × Value)) : Option (List (Bytes × Value) × List Char) :=
+  match cs with
+  | ')' :: r => some (acc.reverse, r)
+  | _ =>
+    let (k, r) := splitAtom cs
+    match ofHex (String.ofList k), r with
+    | some key, '=' :: r' =>
+      match parseValue r' with
+      | none => none
+      | some (v, ';' :: r'') => parseEntries r'' ((key, v) :: acc)
+      | some (v, ')' :: r'') => some (((key, v) :: acc).reverse, r'')
+      | _ => none
+    | _, _ => none
+partial def parseIEntries (cs : List Char) (acc : List (Int × Value)) : Option (List (Int × Value) × List Char) :=
+  match cs with
+  | ')' :: r => some (acc.reverse, r)
+  | _ =>
+    let (k, r) := splitAtom cs
+    match parseInt (String.ofList k), r with
+    | some key, '=' :: r' =>
+      match parseValue r' with
+      | none => none
+      | some (v, ';' :: r'') => parseIEntries r'' ((key, v) :: acc)
+      | some (v, ')' :: r'') => some (((key, v) :: acc).reverse, r'')
+      | _ => none
+    | _, _ => none
+end
+
+def valueOf (s : String) : Option Value :=
+  match parseValue s.toList with
+  | some (v, []) => some v
+  | _ => none
+
+def getMap (kv : KV) (k : String) : List (Bytes × Value) :=
+  match (lookup kv k).bind valueOf with
+  | some (.map kvs) => kvs
+  | _ => []
+
+/-! counter sections -/
+
+def pairsOf (s : String) : List (Int × Int) := (recsOf s).map (fun r => (fI r 0, fI r 1))
+def getDbPool (kv : KV) : Option DbPool :=
+  match lookup kv "dbActive", lookup kv "dbIdle" with
+  | some a, some i => some ⟨pairsOf a, pairsOf i⟩
+  | _, _ => none
+def getNetStat (kv : KV) : Option NetStat :=
+  (lookup kv "netstat").map (fun s => let r := s.splitOn ":"; ⟨fI r 0, fI r 1, fI r 2, fI r 3⟩)
+def getWebSocket (kv : KV) : Option WebSocket :=
+  (lookup kv "websocket").map (fun s => let r := s.splitOn ":"; ⟨fI r 0, fI r 1, fI r 2⟩)
+def getExtra (kv : KV) : Option (List (Int × Value)) :=
+  match (lookup kv "extra").bind valueOf with
+  | some (.imap kvs) => some kvs
+  | _ => none
+def getOidMeter (kv : KV) (k : String) : Option (List OidEntry) :=
+  (lookup kv k).map (fun s => (recsOf s).map (fun r => ⟨fI r 0, fI r 1, fI r 2, fI r 3, fI r 4⟩))
+def getSqlMeter (kv : KV) (k : String) : Option (List SqlEntry) :=
+  (lookup kv k).map (fun s => (recsOf s).map (fun r => ⟨fI r 0, fI r 1, fI r 2, fI r 3, fI r 4, fI r 5, fI r 6⟩))
+def getGroupMeter (kv : KV) (k : String) : Option (List GroupEntry) :=
+  (lookup kv k).map (fun s => (recsOf s).map (fun r => ⟨fI r 0, fI r 1, fI r 2, fI r 3, fI r 4, fI r 5⟩))
+def getUnknown (kv : KV) : Option Unknown :=
+  (lookup kv "unknown").map (fun s => let r := s.splitOn ":"; ⟨fI r 0, fI r 1, fI r 2, fI r 3⟩)
+def getPoidMeter (kv : KV) : List PoidEntry :=
+  ((lookup kv "poidMeter").map (fun s => (recsOf s).map (fun r =>
+    (⟨fI r 0, fI r 1, fI r 2, fI r 3, fI r 4, intsOf "." (r[5]?.getD "-"), fI r 6⟩ : PoidEntry)))).getD []
+
+def parseCounter (kv : KV) : Counter :=
+  { hdr := getHdr kv,
+    duration := getI kv "duration",
+    cputime := getI kv "cputime",
+    heapTot := getI kv "heapTot",
+    heapUse := getI kv "heapUse",
+    heapPerm := getI kv "heapPerm",
+    heapPendingFinalization := getI kv "heapPendingFinalization",
+    gcCount := getI kv "gcCount",
+    gcTime := getI kv "gcTime",
+    serviceCount := getI kv "serviceCount",
+    serviceError := getI kv "serviceError",
+    serviceTime := getI kv "serviceTime",
+    sqlCount := getI kv "sqlCount",
+    sqlError := getI kv "sqlError",
+    sqlTime := getI kv "sqlTime",
+    sqlFetchCount := getI kv "sqlFetchCount",
+    sqlFetchTime := getI kv "sqlFetchTime",
+    httpcCount := getI kv "httpcCount",
+    httpcError := getI kv "httpcError",
+    httpcTime := getI kv "httpcTime",
+    actSvcCount := getI kv "actSvcCount",
+    actSvcSlice := getInts kv "actSvcSlice",
+    cpu := getN kv "cpu",
+    cpuSys := getN kv "cpuSys",
+    cpuUsr := getN kv "cpuUsr",
+    cpuWait := getN kv "cpuWait",
+    cpuSteal := getN kv "cpuSteal",
+    cpuIrq := getN kv "cpuIrq",
+    cpuProc := getN kv "cpuProc",
+    cpuCores := getI kv "cpuCores",
+    mem := getN kv "mem",
+    swap := getN kv "swap",
+    disk := getN kv "disk",
+    threadTotalStarted := getI kv "threadTotalStarted",
+    threadCount := getI kv "threadCount",
+    threadDaemon := getI kv "threadDaemon",
+    threadPeakCount := getI kv "threadPeakCount",
+    dbPool := getDbPool kv,
+    netstat := getNetStat kv,
+    procFd := getI kv "procFd",
+    tps := getN kv "tps",
+    respTime := getI kv "respTime",
+    apType := getI kv "apType",
+    websocket := getWebSocket kv,
+    starttime := getI kv "starttime",
+    packDropped := getI kv "packDropped",
+    hostIp := getI kv "hostIp",
+    macHash := getI kv "macHash",
+    extra := getExtra kv,
+    pid := getI kv "pid",
+    activeStat := getInts kv "activeStat",
+    threadPoolActiveCount := getI kv "threadPoolActiveCount",
+    threadPoolQueueSize := getI kv "threadPoolQueueSize",
+    oidMeter := getOidMeter kv "oidMeter",
+    sqlMeter := getSqlMeter kv "sqlMeter",
+    httpcMeter := getOidMeter kv "httpcMeter",
+    groupMeter := getGroupMeter kv "groupMeter",
+    unknown := getUnknown kv,
+    containerKey := getI kv "containerKey",
+    txDbcTime := getN kv "txDbcTime",
+    txSqlTime := getN kv "txSqlTime",
+    txHttpcTime := getN kv "txHttpcTime",
+    apdexSatisfied := getI kv "apdexSatisfied",
+    apdexTolerated := getI kv "apdexTolerated",
+    arrivalRate := getN kv "arrivalRate",
+    gcOldgenCount := getI kv "gcOldgenCount",
+    version := getN kv "version",
+    heapMax := getI kv "heapMax",
+    procFdMax := getI kv "procFdMax",
+    metering := getN kv "metering",
+    apdexTotal := getI kv "apdexTotal",
+    poidMeter := getPoidMeter kv,
+    resp90 := getI kv "resp90",
+    resp95 := getI kv "resp95",
+    timeSqrSum := getI kv "timeSqrSum" }
+
+def counterKeys : List String := ["duration", "cputime", "heapTot", "heapUse", "heapPerm", "heapPendingFinalization", "gcCount", "gcTime", "serviceCount", "serviceError", "serviceTime", "sqlCount", "sqlError", "sqlTime", "sqlFetchCount", "sqlFetchTime", "httpcCount", "httpcError", "httpcTime", "actSvcCount", "actSvcSlice", "cpu", "cpuSys", "cpuUsr", "cpuWait", "cpuSteal", "cpuIrq", "cpuProc", "cpuCores", "mem", "swap", "disk", "threadTotalStarted", "threadCount", "threadDaemon", "threadPeakCount", "dbActive", "dbIdle", "netstat", "procFd", "tps", "respTime", "apType", "websocket", "starttime", "packDropped", "hostIp", "macHash", "extra", "pid", "activeStat", "threadPoolActiveCount", "threadPoolQueueSize", "oidMeter", "sqlMeter", "httpcMeter", "groupMeter", "unknown", "containerKey", "txDbcTime", "txSqlTime", "txHttpcTime", "apdexSatisfied", "apdexTolerated", "arrivalRate", "gcOldgenCount", "version", "heapMax", "procFdMax", "metering", "apdexTotal", "poidMeter", "resp90", "resp95", "timeSqrSum"]
+
+def commonKeys : List String := ["pcode", "oid", "okind", "onode", "time", "lic", "go"]
+
+def keysOf (ty : String) : Option (List String) :=
+  match ty with
+  | "tagcount" => some ["category", "tagHash", "tags", "data"]
+  | "logsink" => some ["category", "tagHash", "tags", "line", "content", "fields"]
+  | "text" => some ["recs"]
+  | "param" => some ["id", "request", "response", "table"]
+  | "event" => some ["uuid", "esc", "level", "title", "message", "status", "otype", "attr"]
+  | "zip" => some ["status", "recordCount", "records"]
+  | "hitmap" => some ["hit", "error"]
+  | "counter" => some counterKeys
+  | _ => none
+
+/-- the reference decoder applied to an implementation payload: pack type, then the body,
+    consumed exactly; compared (through `Repr`) with the expected fields -/
+def decCheck [Repr α] (c : Codec α) (ty : Nat) (expected : α) (go : Option Bytes) : String :=
+  match go with
+  | none => "nogo"
+  | some bs =>
+    match P.run (rdU 2) bs with
+    | some (t, body) =>
+      if t != ty then "badtype" else
+      match c.dec body with
+      | some (x, []) => if reprStr x == reprStr expected then "ok" else "diff"
+      | _ => "decfail"
+    | none => "decfail"
+
+def anyV : Value → Prop := fun _ => True
+
+def answerPack (ty : String) (kv : KV) : String :=
+  let hdr := getHdr kv
+  let lic := getHex kv "lic"
+  let go := (lookup kv "go").bind ofHex
+  let out (t : Nat) (body : Bytes) (st : String) : String :=
+    s!"{hexOf (frame hdr.pcode lic (payload t body))} {st}"
+  match ty with
+  | "tagcount" =>
+    let p : TagCount := ⟨hdr, getHex kv "category", getI kv "tagHash", getMap kv "tags", getMap kv "data"⟩
+    out typeTagCount (encTagCount p) (decCheck (tagCountC anyV) typeTagCount p.norm go)
+  | "logsink" =>
+    let p : LogSink := ⟨hdr, getHex kv "category", getI kv "tagHash", getMap kv "tags", getI kv "line",
+      getHex kv "content", getMap kv "fields"⟩
+    out typeLogSink (encLogSink p) (decCheck (logSinkC anyV) typeLogSink p.norm go)
+  | "text" =>
+    let p : TextP := ⟨hdr, (recsOf ((lookup kv "recs").getD "-")).map (fun r => ⟨fN r 0, fI r 1, fH r 2⟩)⟩
+    out typeText (encTextP p) (decCheck textC typeText p go)
+  | "param" =>
+    let p : Param := ⟨hdr, getI kv "id", getI kv "request", getI kv "response", getMap kv "table"⟩
+    out typeParameter (encParam p) (decCheck (paramC anyV) typeParameter p go)
+  | "event" =>
+    let e : Event := ⟨hdr, getHex kv "uuid", getN kv "esc" == 1, getN kv "level", getHex kv "title",
+      getHex kv "message", getI kv "status", getI kv "otype",
+      (recsOf ((lookup kv "attr").getD "-")).map (fun r => (fH r 0, fH r 1))⟩
+    out typeEvent (encEvent e) (decCheck eventWireC typeEvent e.toWire go)
+  | "zip" =>
+    let p : Zip := ⟨hdr, getN kv "status", getI kv "recordCount", getHex kv "records"⟩
+    out typeZip (encZip p) (decCheck zipC typeZip p go)
+  | "hitmap" =>
+    let p : HitMap := ⟨hdr, getInts kv "hit", getInts kv "error"⟩
+    let carried : HitMap := ⟨hdr, p.hit.map (fun v => v % 65536), p.error.map (fun v => v % 65536)⟩
+    out typeHitMap1 (encHitMap p) (decCheck hitMapC typeHitMap1 carried go)
+  | "counter" =>
+    let p := parseCounter kv
+    out typeCounter1 (encCounter p) (decCheck (counterC anyV) typeCounter1 p go)
+  | _ => "bad-op"
+
+def answer (line : String) : String :=
+  match line.splitOn " " with
+  | ["hash", hex] =>
+    match ofHex hex with
+    | some bs => s!"{hash64 bs}"
+    | none => "bad-op"
+  | ty :: rest =>
+    match keysOf ty with
+    | none => "bad-op"
+    | some keys =>
+      let kv : KV := rest.filterMap (fun tok =>
+        match tok.splitOn "=" with
+        | k :: v :: more => some (k, "=".intercalate (v :: more))
+        | _ => none)
+      match kv.find? (fun p => !(keys.contains p.1 || commonKeys.contains p.1)) with
+      | some (k, _) => s!"badkey:{k}"
+      | none => answerPack ty kv
+  | _ => "bad-op"
+
+def main : IO Unit := statelessLoop answer
